@@ -83,6 +83,7 @@ SLOTS = {
     'n6': (['x', 'y', 'k'], False, False),
     'n0b': (['x', 'y', 'w'], False, False),
     'n8': (['x'], False, False),
+    'n12': (['y'], False, False),
 }
 POSITIONAL = {'n1': ['uid', 'x']}  # positional-only names, in order
 
@@ -267,7 +268,7 @@ def gen_case(world, tier, prop):
 
 
 EDITABLE = {'n0': ['x', 'y', 'z'], 'n1': ['y'], 'N2': ['x', 'k'], 'N3': ['x'],
-            'n5': ['x'], 'n6': ['x', 'y', 'k'], 'n0b': ['x', 'y', 'w']}
+            'n5': ['x'], 'n6': ['x', 'y', 'k'], 'n0b': ['x', 'y', 'w'], 'n12': ['y']}
 
 
 def gen_edits(rng, defs, node_ids, new_id, token):
@@ -431,6 +432,8 @@ def built_objects(v, acc=None):
     acc = {}
   if id(v) in acc:
     return acc
+  if v is stubmod.DEFAULT_LIST:
+    return acc    # the callable's OWN default object (an unset parameter): Python's doing
   rec = v if isinstance(v, stubmod.Rec) else getattr(v, '_fsim_rec', None)
   if isinstance(rec, stubmod.Rec):
     acc[id(v)] = v
@@ -541,6 +544,15 @@ def run(case):
           bump(faults, 'refused_op')
         else:
           raise AssertionError('harness: update_callable was expected to be refused')
+  # n12 has a mutable container as the default of `x`: half of its configurations
+  # store that very object explicitly (`cfg.x = cfg.x`, what materialize_defaults
+  # does); building must still hand the callable a built copy of it
+  for bm, bi in zip(mk_m.nodes, mk_i.nodes):
+    if getattr(bi.__fn_or_cls__, '__name__', None) == 'n12' and uid_of(bm) is not None \
+        and isinstance(uid_of(bm), int) and uid_of(bm) % 2 == 0 and 'x' not in bi.__arguments__:
+      bi.x = bi.x
+      bm.named['x'] = bm.sv.defaults['x']
+      bump(probes, 'mutable_default_stored_explicitly')
   if case.get('swapped') and not case.get('refused'):
     # history: a SUCCESSFUL update_callable(drop_invalid_args=True) on nodes
     # whose dropped argument carries a tag (the tag stays behind)
